@@ -502,6 +502,12 @@ where
             // calls again, yielding the runge-kutta steps.
             if self.yield_memory == O {
                 self.yield_memory -= 1;
+                // Keep the derivative history aligned with the point history: the accepted
+                // step's derivative replaces the oldest one (the points are shifted once the
+                // starting steps have been yielded).
+                self.prev_derivatives
+                    .push_back(self.implicit_derivs.clone());
+                self.prev_derivatives.pop_front();
                 return Err(IVPStatus::Redo);
             }
 
